@@ -32,11 +32,8 @@ package ollama
 
 // ---- helpers of this package that are not verified here (trusted frames) ------------------
 
-//@ extern func (*Registry).Resolve
-//@   modifies nothing
-//@   ensures result.1 == nil ==> result.0 != nil
-//@ extern func (*Registry).cache
-//@   modifies nothing
+// ((*Registry).Resolve: was a trusted extern; contract with verified body in the coverage extension at the end of this file)
+// ((*Registry).cache: was a trusted extern; contract with verified body at the end of this file)
 //@ extern func (*Registry).maxStreams
 //@   pure reads none
 //@ extern func traceFromContext
@@ -57,8 +54,7 @@ package ollama
 //@ extern func server/internal/cache/blob.(*DiskCache).Chunked
 //@   modifies nothing
 //@   ensures result.1 == nil ==> result.0 != nil
-//@ extern func (*Registry).chunksums
-//@   modifies nothing
+// ((*Registry).chunksums: was a trusted extern; contract with verified body in the coverage extension at the end of this file)
 //@ extern func iter.(Seq2)
 //@   modifies nothing
 //@ extern func (*Registry).Pull$2$1
@@ -153,13 +149,9 @@ package ollama
 // ---- is gated by the CHUNK digest cs.Digest and the chunk's size) and the marker blob
 // ---- "v1 pull chunksum <layer> <chunk digest> <start>-<end>" was stored; the marker is
 // ---- written only after Put returned nil.
-//@ extern func sendRequest
-//@   modifies nothing
-//@   ensures result.1 == nil ==> result.0 != nil
-//@ extern func (*Registry).client
-//@   modifies nothing
-//@ extern func (*Registry).readTimeout
-//@   pure reads none
+// (sendRequest: was a trusted extern; contract with verified body in the coverage extension at the end of this file)
+// ((*Registry).client: was a trusted extern; contract with verified body in the coverage extension at the end of this file)
+// ((*Registry).readTimeout: was a trusted extern; contract with verified body in the coverage extension at the end of this file)
 //@ extern func context.WithCancelCause
 //@   modifies nothing
 //@ extern func time.AfterFunc
@@ -218,15 +210,15 @@ package ollama
 //@   modifies nothing
 //@   ensures result.1 == nil ==> result.0.Start <= result.0.End
 //@   ensures result.1 != nil ==> result.0.Start == 0 && result.0.End == 0
+// a chunk never starts before the beginning of the layer: the start text is what precedes the first '-',
+// so it carries no minus sign (library facts about strings.Cut / strconv.ParseInt, stated below)
+//@   ensures result.1 == nil ==> 0 <= result.0.Start
 
 // ---- chunksums$1: the iterator body behind `for cs, err := range r.chunksums(...)` -----------
 //@ extern func (*Registry).parseNameExtended
 //@   modifies nothing
-//@ extern func (*Registry).maxChunkingThreshold
-//@   pure
-//@ extern func (*Registry).newRequest
-//@   modifies nothing
-//@   ensures result.1 == nil ==> result.0 != nil
+// ((*Registry).maxChunkingThreshold: was a trusted extern; contract with verified body in the coverage extension at the end of this file)
+// ((*Registry).newRequest: was a trusted extern; contract with verified body in the coverage extension at the end of this file)
 //@ func (*Registry).chunksums$1
 // a layer below the chunking threshold is fetched as ONE chunk that spans the whole layer and
 // carries the LAYER digest, so blob.(*Chunker).Put verifies the complete content.
@@ -240,6 +232,8 @@ package ollama
 // the ones just parsed from the same line pair; parseChunk's postcondition gives Start <= End
 //@   assert-at call #30 : arg1 == nil && arg0.Chunk.Start == chunk.Start && arg0.Chunk.End == chunk.End && arg0.Chunk.Start <= arg0.Chunk.End
 //@   assert-at call #30 : arg0.Digest == d && arg0.URL == blobURL
+// (extension) the yielded chunk does not start before the layer (parseChunk's new postcondition)
+//@   assert-at call #30 : 0 <= arg0.Chunk.Start
 
 // ---- Pull$2$3: body of `for cs, err := range r.chunksums(ctx, name, l)` (go/ssa compiles the
 // ---- range-over-func body into this synthetic yield function; arg0 = cs, arg1 = err) ----------
@@ -287,12 +281,8 @@ package ollama
 
 // ---- Push ------------------------------------------------------------------------------------
 // Loops: 1 pre-flight (every layer non-nil, blob present, size matches)   2 start uploads
-//@ extern func (*Registry).ResolveLocal
-//@   modifies nothing
-//@   ensures result.1 == nil ==> result.0 != nil
-//@ extern func (*Registry).send
-//@   modifies nothing
-//@   ensures result.1 == nil ==> result.0 != nil
+// ((*Registry).ResolveLocal: was a trusted extern; contract with verified body in the coverage extension at the end of this file)
+// ((*Registry).send: was a trusted extern; contract with verified body in the coverage extension at the end of this file)
 //@ extern func context.WithCancel
 //@   modifies nothing
 //@ extern func context.(CancelFunc)
@@ -363,3 +353,178 @@ package ollama
 // ---- trackingReader.Read: every Read reports exactly the number of bytes it returned
 //@ func (*trackingReader).Read
 //@   assert-at call (trackingReader).update #1 : arg0 == n && arg1 == nil
+
+// ==== coverage extension: the request helpers and manifest resolution (bodies verified) ==========
+// ---- sendRequest: the error mapping every "accepted by the registry" / "chunk fetched" fact rests on:
+// ---- a response is returned with a nil error only if its status is 2xx; everything else is an error.
+//@ extern func net/http.(*Client).Do
+//@   modifies nothing
+//@   ensures result.1 == nil ==> result.0 != nil
+//@ extern func net/http.(*Request).Clone
+//@   modifies nothing
+//@   ensures result != nil && fresh(result) && result.URL != nil && fresh(result.URL)
+//@ extern func net/http.(*Request).Context
+//@   modifies nothing
+//@ extern func strings.EqualFold
+//@   modifies nothing
+// (cloner).Clone is http.(*Transport).Clone behind a local interface: returns a new transport
+// (net/http.(*Transport).Clone clones the TLS configuration as well)
+//@ extern func (cloner).Clone
+//@   modifies nothing
+//@   ensures result != nil && fresh(result) && (result.TLSClientConfig == nil || fresh(result.TLSClientConfig))
+// cmp.Or returns one of its operands (the first non-zero one, or the zero value = the last operand)
+//@ extern func cmp.Or
+//@   modifies nothing
+//@   ensures len(vals) == 2 ==> result == vals[0] || result == vals[1]
+//@   ensures len(vals) == 2 && vals[1] != nil ==> result != nil      -- (meaningful for pointer/interface instantiations only)
+//@ func sendRequest
+//@   ensures result.1 == nil ==> result.0 != nil && 200 <= result.0.StatusCode && result.0.StatusCode < 300
+//@   assume-at return #3 : ErrModelNotFound != nil      -- package-level errors.New value, never reassigned
+//@   ghost-at entry : ghost_did := 0
+//@   ghost-at after call (*Client).Do #1 : ghost_did := ite(result.1 == nil, 1, 0)
+//@   ensures result.1 == nil ==> ghost_did == 1
+//@   modifies nothing
+
+// ---- newRequest / send: the request that is sent is the one the caller described (method, URL, body),
+// ---- and send's success is sendRequest's success (2xx)
+//@ extern func makeAuthToken
+//@   modifies nothing
+//@ func (*Registry).newRequest
+//@   modifies nothing
+//@   ensures result.1 == nil ==> result.0 != nil
+//@   assert-at call NewRequestWithContext #1 : arg0 == ctx && arg1 == method && arg2 == url && arg3 == body
+//@   ghost-at entry : ghost_made := 0
+//@   ghost-at after call NewRequestWithContext #1 : ghost_made := ite(result.1 == nil, 1, 0)
+//@   ensures result.1 == nil ==> ghost_made == 1
+//@ func (*Registry).send
+//@   modifies nothing
+//@   ensures result.1 == nil ==> result.0 != nil && 200 <= result.0.StatusCode && result.0.StatusCode < 300
+//@   assert-at call newRequest #1 : arg0 == r && arg1 == ctx && arg2 == method && arg3 == path && arg4 == body
+//@   assert-at call sendRequest #1 : arg1 == req
+//@   ghost-at entry : ghost_sent := 0
+//@   ghost-at after call sendRequest #1 : ghost_sent := ite(result.1 == nil, 1, 0)
+//@   ensures result.1 == nil ==> ghost_sent == 1
+
+// ---- small accessors (were trusted externs)
+//@ func (*Registry).client
+//@   modifies nothing
+//@   ensures r.HTTPClient != nil ==> result == r.HTTPClient
+//@ func (*Registry).readTimeout
+//@   modifies nothing
+//@   ensures result > 0
+//@ func (*Registry).maxChunkingThreshold
+//@   modifies nothing
+//@   ensures result == r.ChunkingThreshold || result == 67108864
+//@   ensures result != 0
+//@ func (*Error).Temporary
+//@   modifies nothing
+//@   ensures result <==> e.status >= 500
+//@ func (*Registry).chunksums
+//@   modifies nothing
+
+// ---- unmarshalManifest: the manifest object carries exactly the bytes it was parsed from (Pull stores
+// ---- and links m.Data under its own digest; Push sends m.Data) and its layers are decoded from them
+// (no safe.panic: the function panics by design on a name that is not fully qualified - see the report)
+//@ extern func encoding/json.Unmarshal
+//@   modifies boxed(v)
+//@ func unmarshalManifest
+//@   opt safe index,slice,div,typeassert,makeslice,shift,nilmap
+//@   modifies nothing
+//@   ensures result.1 == nil ==> result.0 != nil && fresh(result.0) && result.0.Data == data
+//@   assert-at call json.Unmarshal #1 : arg0 == data
+//@   ghost-at entry : ghost_dec := 0
+//@   ghost-at after call json.Unmarshal #1 : ghost_dec := ite(result == nil, 1, 0)
+//@   ensures result.1 == nil ==> ghost_dec == 1
+
+// ---- Resolve: the manifest Pull works on is the one decoded from the body of a successful GET of the
+// ---- manifest URL of the requested name
+//@ extern func io.ReadAll
+//@   modifies nothing
+//@ func (*Registry).Resolve
+//@   modifies nothing
+//@   ensures result.1 == nil ==> result.0 != nil
+//@   assert-at call parseNameExtended #1 : arg0 == r && arg1 == name
+//@   assert-at call (*Registry).send #1 : arg0 == r && arg1 == ctx && arg2 == "GET" && arg3 == manifestURL && arg4 == nil
+//@   assert-at call io.ReadAll #1 : slog.AnyValue(arg0) == slog.AnyValue(res.Body)
+//@   assert-at call unmarshalManifest #1 : arg0 == n && arg1 == data
+//@   ghost-at entry : ghost_got := 0
+//@   ghost-at entry : ghost_parsed := 0
+//@   ghost-at after call (*Registry).send #1 : ghost_got := ite(result.1 == nil, 1, 0)
+//@   ghost-at after call unmarshalManifest #1 : ghost_parsed := ite(result.1 == nil, 1, 0)
+//@   ensures result.1 == nil ==> ghost_got == 1 && ghost_parsed == 1
+//@   assert-at call fmt.Sprintf #1 : arg0 == "%s://%s/v2/%s/%s/manifests/%s" && len(arg1) == 5 && slog.AnyValue(arg1[0]) == slog.AnyValue(scheme)
+//@   assert-at call fmt.Sprintf #2 : arg0 == "%s://%s/v2/%s/%s/blobs/%s" && len(arg1) == 5 && slog.AnyValue(arg1[0]) == slog.AnyValue(scheme) && slog.AnyValue(arg1[4]) == slog.AnyValue(d)
+
+// ---- ResolveLocal (Push's source manifest): decoded from the cache file of the digest the name
+// ---- resolves to (or of the digest given in the name)
+// (blob.(*DiskCache).Resolve: contract in the blob package, C08)
+//@ extern func os.ReadFile
+//@   modifies nothing
+//@ extern func errors.Join
+//@   modifies nothing
+//@ func (*Registry).ResolveLocal
+//@   modifies nothing
+//@   ensures result.1 == nil ==> result.0 != nil
+//@   assert-at call parseNameExtended #1 : arg0 == r && arg1 == name
+//@   assert-at call GetFile #1 : arg0 == c && arg1 == d
+//@   assert-at call os.ReadFile #1 : arg0 == c.GetFile(d)
+//@   assert-at call unmarshalManifest #1 : arg0 == n && arg1 == data
+//@   ghost-at entry : ghost_read := 0
+//@   ghost-at entry : ghost_parsed := 0
+//@   ghost-at after call os.ReadFile #1 : ghost_read := ite(result.1 == nil, 1, 0)
+//@   ghost-at after call unmarshalManifest #1 : ghost_parsed := ite(result.1 == nil, 1, 0)
+//@   ensures result.1 == nil ==> ghost_read == 1 && ghost_parsed == 1
+//@   assert-at call (*DiskCache).Resolve #1 : arg0 == c
+//@   assume-at call (*DiskCache).Resolve #1 : arg0.testHookBeforeFinalWrite == nil     -- production caches have no test hook (same assumption as in Pull)
+
+// ---- Unlink: removes the link of the fully qualified name in this registry's cache
+//@ func (*Registry).Unlink
+//@   assert-at call (*DiskCache).Unlink #1 : arg0 == c
+//@   ghost-at entry : ghost_named := 0
+//@   ghost-at after call parseName #1 : ghost_named := ite(result.1 == nil, 1, 0)
+//@   assert-at call (*DiskCache).Unlink #1 : ghost_named == 1
+
+// ---- cache(): the configured cache when there is one (the default cache is a sync.OnceValues closure)
+//@ func (*Registry).cache
+//@   ensures old(r.Cache) != nil ==> result.0 == old(r.Cache) && result.1 == nil
+
+// ---- library facts used by parseChunk's `0 <= Start`
+// strings.Cut: `before` is the text in front of the FIRST occurrence of sep
+//@ extern func strings.Cut
+//@   pure
+//@   ensures result.2 <==> scontains(s, sep)
+//@   ensures !result.2 ==> result.0 == s && result.1 == ""
+//@   ensures result.2 ==> 0 <= sindex(s, sep) && sindex(s, sep) + len(sep) <= len(s)
+//@   ensures result.2 ==> result.0 == s[0:sindex(s, sep)] && result.1 == s[sindex(s, sep)+len(sep):len(s)]
+//@   ensures result.2 ==> len(result.0) == sindex(s, sep) && len(result.1) == len(s) - sindex(s, sep) - len(sep)
+//@   ensures result.2 && len(sep) == 1 ==> forall j int :: 0 <= j && j < len(result.0) ==> result.0[j] != sep[0]
+// strconv.ParseInt: the empty string is an error; a text without a leading '-' is not negative
+//@ extern func strconv.ParseInt
+//@   modifies nothing
+//@   ensures result.1 == nil ==> len(s) > 0
+//@   ensures result.1 == nil && s[0] != 45 ==> result.0 >= 0
+
+// ---- name parsing (was a trusted frame): an extended name is accepted only with a fully qualified name
+// ---- (after merging with the mask) or as a bare valid digest
+//@ extern func slices.Contains
+//@   modifies nothing
+//@ func withPublicMessagef
+//@   modifies nothing
+//@   ensures result != nil
+//@ func splitExtended
+//@   modifies nothing
+// parseName stays TRUSTED (body not verified): it calls names.Parse, whose contract (names package, not owned by
+// C09) names the package-local constant MaxNameLength and cannot be bound at a call site in this package
+//@ extern func (*Registry).parseName
+//@   modifies nothing
+//@   ensures result.1 == nil ==> result.0.IsFullyQualified()
+//@ func (*Registry).parseNameExtended
+//@   modifies nothing
+//@   ghost-at entry : ghost_named := 0
+//@   ghost-at entry : ghost_digest := 0
+//@   ghost-at after call parseName #1 : ghost_named := ite(result.1 == nil, 1, 0)
+//@   ghost-at after call ParseDigest #1 : ghost_digest := ite(result.1 == nil, 1, 0)
+//@   ensures result.3 == nil ==> ghost_named == 1 || ghost_digest == 1
+//@   ensures result.3 == nil && ghost_named == 1 ==> result.1.IsFullyQualified()
+//@   assert-at call parseName #1 : arg0 == r && arg1 == name
+//@   assert-at call ParseDigest #1 : arg0 == digest
